@@ -108,6 +108,7 @@ type c16Cfg struct {
 	streams  bool
 	user     string
 	pass     string
+	snr      int          // snr_ value in the prefix: segment numbers are that much higher
 	va       *vref.VAsset // set for an asset whose segment durations vary: numbers and instants come from the reference model of the asset
 }
 
@@ -184,7 +185,7 @@ func (e *c16Env) repsOf(c c16Cfg) ([]c16Rep, error) {
 
 // ref returns what livesim2 itself serves for the segment addressed by addr (number or time).
 func (e *c16Env) ref(c c16Cfg, rep string, addr uint64, nr uint32) ([]byte, int) {
-	late := (int64(nr)+1)*c.segDurMS() + 4000
+	late := (int64(nr)-int64(c.snr)+1)*c.segDurMS() + 4000
 	if c.va != nil {
 		late = vref.TicksToMSCeil(c.va.Ref.LiveEnd(int64(nr)), c.va.Ref.TS) + 4000
 	}
@@ -313,6 +314,11 @@ func (e *c16Env) create(s *vrt.Sched, c c16Cfg, dest string, testNow, dur *int) 
 func c16FirstNr(nowMS int64, atoMS int) int64 { return (nowMS + int64(atoMS)) / c16SegMS }
 
 func (c c16Cfg) firstNr(nowMS int64, atoMS int) int64 {
+	if c.snr != 0 {
+		d := c
+		d.snr = 0
+		return d.firstNr(nowMS, atoMS) + int64(c.snr)
+	}
 	if c.va != nil {
 		return c.va.Ref.LastEnded(nowMS, int64(atoMS)) + 1
 	}
@@ -647,6 +653,8 @@ func TestVerifC16(t *testing.T) {
 		{name: "wave2997-number", asset: "WAVE/vectors/cfhd_sets/14.985_29.97_59.94/t1/2022-10-17", segMS: 2002, mpd: "stream.mpd"},
 		{name: "wave2997-tltime", asset: "WAVE/vectors/cfhd_sets/14.985_29.97_59.94/t1/2022-10-17", segMS: 2002, prefix: "segtimeline_1/", mpd: "stream.mpd", timeAddr: true},
 		{name: "testpic8s-number", asset: "testpic_8s", segMS: 8000, mpd: "Manifest.mpd"},
+		{name: "number-snr3", prefix: "snr_3/", mpd: "Manifest.mpd", snr: 3},
+		{name: "tlnr-snr3", prefix: "segtimelinenr_1/snr_3/", mpd: "Manifest.mpd", snr: 3},
 	}
 	// alternating 4 s / 8 s segments: the step following a short segment and the one following a long one
 	if va, err := vAsset(vBundledRoot, "testpic_alt_seg_dur_stl"); err == nil {
